@@ -933,6 +933,173 @@ theorem stepFootprint_ctorType (j : Nat) (ty : Nat) : StepFootprint (.ctorType j
       · exact alloc_replace_footprint (b := emptyBlock o) inv iso hj (by intro w hw; simp [bvals, emptyBlock] at hw) rfl
           (by intro _; simp [emptyBlock, SortedItems, AslProofs.Map.Sorted]) h
 
+/-- a const step from a value that holds no handle into an owned set gives such a value -/
+theorem stepConst_outside {σ : State} {k : Nat} {S : Nat → Prop} (iso : Iso σ k S) {v v1 : V} {s : Step}
+    (hv : ∀ c, handleOf v = some c → ¬ S c) (h : stepConst σ.heap v s = .ok v1) : ∀ c, handleOf v1 = some c → ¬ S c := by
+  intro c hc
+  have hnone : v1 = .none → False := fun e => by rw [e] at hc; cases hc
+  cases s with
+  | idx i =>
+    cases v with
+    | arr id =>
+      simp only [stepConst] at h
+      cases hb : getB σ.heap id with
+      | error e => simp [hb] at h
+      | ok b =>
+        simp only [hb] at h
+        cases hi : b.items[i]? with
+        | none => simp [hi] at h; exact (hnone h.symm).elim
+        | some kv =>
+          simp only [hi, Except.ok.injEq] at h
+          subst h
+          exact iso.2.2.2.1 id b (hv id rfl) hb kv.2 (List.mem_map.mpr ⟨kv, List.mem_of_getElem? hi, rfl⟩) c hc
+    | _ => simp only [stepConst, Except.ok.injEq] at h; exact (hnone h.symm).elim
+  | key key =>
+    cases v with
+    | obj id =>
+      simp only [stepConst] at h
+      cases hb : getB σ.heap id with
+      | error e => simp [hb] at h
+      | ok b =>
+        simp only [hb] at h
+        cases hf : Map.find Map.cmpBytes b.items key with
+        | none => simp [hf] at h
+        | some r =>
+          simp only [hf, Except.ok.injEq] at h
+          cases r with
+          | none => exact (hnone h.symm).elim
+          | some x =>
+            simp only [Option.getD_some] at h
+            subst h
+            have hx : x ∈ bvals b := by
+              unfold Map.find at hf
+              cases hi : Map.indexOf Map.cmpBytes b.items key with
+              | none => simp [hi] at hf
+              | some r =>
+                simp only [hi] at hf
+                split at hf
+                · simp only [Option.some.injEq] at hf
+                  cases hg : b.items[r.toNat]? with
+                  | none => simp [hg] at hf
+                  | some kv =>
+                    simp only [hg, Option.map_some, Option.some.injEq] at hf
+                    subst hf
+                    exact List.mem_map.mpr ⟨kv, List.mem_of_getElem? hg, rfl⟩
+                · simp at hf
+            exact iso.2.2.2.1 id b (hv id rfl) hb x hx c hc
+    | _ => simp only [stepConst, Except.ok.injEq] at h; exact (hnone h.symm).elim
+
+theorem resolveConst_outside {σ : State} {k : Nat} {S : Nat → Prop} (iso : Iso σ k S) : ∀ (steps : List Step) (v w : V),
+    (∀ c, handleOf v = some c → ¬ S c) → resolveConst σ.heap v steps = .ok w → ∀ c, handleOf w = some c → ¬ S c
+  | [], v, w, hv, h => by simp only [resolveConst, Except.ok.injEq] at h; subst h; exact hv
+  | s :: rest, v, w, hv, h => by
+    simp only [resolveConst] at h
+    cases h1 : stepConst σ.heap v s with
+    | error e => simp [h1] at h
+    | ok v1 =>
+      simp only [h1] at h
+      exact resolveConst_outside iso rest v1 w (stepConst_outside iso hv h1) h
+
+/-- a const path from another root never yields a handle into the owned set -/
+theorem cget_outside {σ : State} {k : Nat} {S : Nat → Prop} (iso : Iso σ k S) {q : Path} (hq : q.root ≠ k) {w : V}
+    (h : cget σ q = .ok w) : ∀ c, handleOf w = some c → ¬ S c :=
+  resolveConst_outside iso q.steps _ w (fun c hc => iso.2.2.1 q.root hq c hc) h
+
+/-- a change of a reference count outside the owned set -/
+theorem iso_copyV {σ : State} {k : Nat} {S : Nat → Prop} (iso : Iso σ k S) {v : V} {h' : Heap}
+    (hv : ∀ c, handleOf v = some c → ¬ S c) (h : copyV σ.heap v = .ok h') :
+    Iso { σ with heap := h' } k S ∧ ∀ id, S id → h'[id]? = σ.heap[id]? := by
+  unfold copyV at h
+  cases hh : handleOf v with
+  | none => simp only [hh, Except.ok.injEq] at h; subst h; exact ⟨iso, fun _ _ => rfl⟩
+  | some c =>
+    simp only [hh] at h
+    cases hb : getB σ.heap c with
+    | error e => simp [hb] at h
+    | ok b =>
+      simp only [hb, Except.ok.injEq] at h
+      subst h
+      have hc := hv c hh
+      have hcells : ∀ id, S id → (setB σ.heap c { b with rc := b.rc + 1 })[id]? = σ.heap[id]? := by
+        intro id hS
+        have : c ≠ id := fun e => hc (e ▸ hS)
+        simp [setB, List.getElem?_set_ne this]
+      refine ⟨⟨iso.1, ?_, iso.2.2.1, ?_, ?_⟩, hcells⟩
+      · intro id b' hS hb' w hw cc hcc
+        have : getB σ.heap id = .ok b' := by rw [getB_eq, ← hcells id hS, ← getB_eq]; exact hb'
+        exact iso.2.1 id b' hS this w hw cc hcc
+      · intro id b' hnS hb' w hw cc hcc
+        by_cases hid : id = c
+        · subst hid
+          rw [getB_setB_same _ (getB_lt hb)] at hb'
+          simp only [Except.ok.injEq] at hb'
+          subst hb'
+          exact iso.2.2.2.1 id b hnS hb w (by simpa [bvals] using hw) cc hcc
+        · have : getB σ.heap id = .ok b' := by rw [← getB_set_ne _ hid]; exact hb'
+          exact iso.2.2.2.1 id b' hnS this w hw cc hcc
+      · intro id hS
+        simp only [setB, List.length_set]
+        exact iso.2.2.2.2 id hS
+
+/-- `root j = Var(q)` (copy construction: shares `q`'s container) with `q` under another root -/
+theorem stepFootprint_copy (j : Nat) (q : Path) : StepFootprint (.copy j q) := by
+  intro σ k S inv iso hm
+  have hjq : j ≠ k ∧ q.root ≠ k := by simpa [mentions] using hm
+  simp only [applyOp, targetOf, rootOp, opCopy]
+  rcases inv.cget q with ⟨e, h1, _⟩ | ⟨src, h1, hsrc⟩
+  · rw [h1]; exact stepFootprint_refused iso
+  · rw [h1]
+    obtain ⟨h', h2, inv2, _⟩ := inv.copyV hsrc
+    simp only [h2]
+    have hout := cget_outside iso hjq.2 h1
+    obtain ⟨iso1, hcells⟩ := iso_copyV iso hout h2
+    cases h : replaceSlot { σ with heap := h' } j src with
+    | error e => exact stepFootprint_refused iso
+    | ok σ' =>
+      obtain ⟨iso2, hslot, hc2⟩ := replaceSlot_footprint inv2 iso1 hjq.1 hout h
+      exact ⟨iso2, hslot, fun id hS => by rw [hc2 id hS]; exact hcells id hS⟩
+
+
+/-- appending blocks whose values hold no handle into the owned set -/
+theorem iso_append {σ : State} {k : Nat} {S : Nat → Prop} (iso : Iso σ k S) (y : Heap)
+    (hy : ∀ ob ∈ y, ∀ w ∈ ovals ob, ∀ c, handleOf w = some c → ¬ S c) :
+    Iso { σ with heap := σ.heap ++ y } k S ∧ ∀ id, S id → (σ.heap ++ y)[id]? = σ.heap[id]? := by
+  have hcells : ∀ id, S id → (σ.heap ++ y)[id]? = σ.heap[id]? :=
+    fun id hS => List.getElem?_append_left (iso.2.2.2.2 id hS)
+  refine ⟨⟨iso.1, ?_, iso.2.2.1, ?_, ?_⟩, hcells⟩
+  · intro id b' hS hb' w hw c hc
+    have : getB σ.heap id = .ok b' := by rw [getB_eq, ← hcells id hS, ← getB_eq]; exact hb'
+    exact iso.2.1 id b' hS this w hw c hc
+  · intro id b' hnS hb' w hw c hc
+    by_cases hlt : id < σ.heap.length
+    · have : getB σ.heap id = .ok b' := by rw [← getB_append_left y hlt]; exact hb'
+      exact iso.2.2.2.1 id b' hnS this w hw c hc
+    · exact hy (some b') (getB_appended (Nat.le_of_not_lt hlt) hb') w hw c hc
+  · intro id hS
+    simp only [List.length_append]
+    exact Nat.lt_of_lt_of_le (iso.2.2.2.2 id hS) (Nat.le_add_right _ _)
+
+/-- `root j = q.clone()` for another root `j` and a source under another root -/
+theorem stepFootprint_clone (j : Nat) (q : Path) : StepFootprint (.clone j q) := by
+  intro σ k S inv iso hm
+  have hjq : j ≠ k ∧ q.root ≠ k := by simpa [mentions] using hm
+  simp only [applyOp, targetOf, rootOp, opClone]
+  rcases inv.cget q with ⟨e, h1, _⟩ | ⟨src, h1, hsrc⟩
+  · rw [h1]; exact stepFootprint_refused iso
+  · rw [h1]
+    rcases cloneOK (travFuel σ.heap) σ src [] inv (Held.live inv hsrc) with h2 | ⟨h', c, h2, inv2, _⟩
+    · simp only [h2]; exact ⟨iso, trivial, fun _ _ => trivial⟩
+    · simp only [h2]
+      obtain ⟨y, hy, hc, hfy⟩ := cloneFresh _ σ.heap.length σ.heap h' src c (Nat.le_refl _) h2
+      have hfresh : ∀ id, σ.heap.length ≤ id → ¬ S id := fun id hle hS => Nat.lt_irrefl _ (Nat.lt_of_lt_of_le (iso.2.2.2.2 id hS) hle)
+      subst hy
+      obtain ⟨iso1, hcells⟩ := iso_append iso y (fun ob hob w hw cc hcc => hfresh cc (hfy ob hob w hw cc hcc).1)
+      cases h : replaceSlot { σ with heap := σ.heap ++ y } j c with
+      | error e => exact stepFootprint_refused iso
+      | ok σ' =>
+        obtain ⟨iso2, hslot, hc2⟩ := replaceSlot_footprint inv2 iso1 hjq.1 (fun cc hcc => hfresh cc (hc cc hcc).1) h
+        exact ⟨iso2, hslot, fun id hS => by rw [hc2 id hS]; exact hcells id hS⟩
+
 /-- **clone_deep over histories** — after an executed `root k = q.clone()` (any history before it), NO history of
 statements that do not mention root `k` and whose one-statement footprint is proved (`StepFootprint`) changes the tree
 root `k` denotes — whatever those statements do to the original and to everything else. -/
